@@ -407,13 +407,20 @@ impl CoreDocument {
   ///
   /// # Errors
   ///
-  /// Returns an error if a method or service with the same fragment already exists.
+  /// Returns an error if a method, service or (possibly dangling) method reference with the same identifier
+  /// already exists.
   pub fn insert_method(&mut self, method: VerificationMethod, scope: MethodScope) -> Result<()> {
-    // Check that the method identifier is not already in use by an existing method or service.
+    // Check that the method identifier is not already in use by an existing method, service or
+    // (possibly dangling) method reference.
     //
     // NOTE: this check cannot be relied upon if the document contains methods or services whose ids are
     // of the form <did different from this document's>#<fragment>.
-    if self.resolve_method(method.id(), None).is_some() || self.service().query(method.id()).is_some() {
+    if self.resolve_method(method.id(), None).is_some()
+      || self.service().query(method.id()).is_some()
+      || self
+        .verification_relationships()
+        .any(|method_ref| method_ref.id() == method.id())
+    {
       return Err(Error::MethodInsertionError);
     }
     match scope {
